@@ -3,6 +3,7 @@ package props
 import (
 	"fmt"
 	"net"
+	"os"
 	"sort"
 	"strings"
 	"time"
@@ -188,7 +189,11 @@ func c20Check(c *core.Ctx, name string, steps []burstStep, strict bool) {
 	for i, s := range steps {
 		if s.jump > 0 {
 			lab.Advance(s.jump)
-			pre = append(pre, c20Reports(l)...)
+			rr := c20Reports(l)
+			if os.Getenv("C20DBG") != "" && len(rr) > 0 {
+				fmt.Fprintf(os.Stderr, "C20DBG before step %d: %v\n", i, rr)
+			}
+			pre = append(pre, rr...)
 		}
 		if p, w := l.inject(probeFrame(clientIP(s.src), s.p, i)); p != "" {
 			c.Violationf("C20:panic:"+w, "%s: probe %v panicked: %s", name, s.p, p)
@@ -396,6 +401,33 @@ func runC20(c *core.Ctx) {
 				}
 				c20Check(c, fmt.Sprintf("burst of %d probes (%s)", n, shape), steps, true)
 			})
+		}
+	}
+	// paced bursts: time passes between the probes (less than the detector's 5 s of silence), so
+	// detector ticks fall inside the burst; a second source sends three probes at the start
+	for _, n := range []int{30, 101, 150} {
+		for _, gap := range []time.Duration{50 * time.Millisecond, time.Second, 4900 * time.Millisecond} {
+			for _, shape := range []string{"tcp-only", "mixed"} {
+				n, gap, shape := n, gap, shape
+				c.Case(fmt.Sprintf("burst/paced/%d/%v/%s", n, gap, shape), func() {
+					var steps []burstStep
+					for i := 0; i < n; i++ {
+						p := probe{"tcp", uint16(8081 + i%60)}
+						if shape == "mixed" {
+							p = alpha[i%len(alpha)]
+						}
+						st := burstStep{src: 2, p: p}
+						if i > 0 {
+							st.jump = gap
+						}
+						steps = append(steps, st)
+						if i < 3 {
+							steps = append(steps, burstStep{src: 3, p: probe{"tcp", uint16(2200 + i)}})
+						}
+					}
+					c20Check(c, fmt.Sprintf("paced burst of %d probes, %v apart (%s)", n, gap, shape), steps, true)
+				})
+			}
 		}
 	}
 	// several sources: all interleavings of their probes, <= 6 probes total
